@@ -148,73 +148,91 @@ Proof.
 Qed.
 
 (* ------------------------------------------------------------------ Pl_PNGFilter: the row buffers *)
-(* REFUTED on the constructor as coded: parameters that every check accepts and for which both row buffers have size 0
-   while a row has 2^32 - 1 bytes (finding D-C04-png-row-wrap: /Columns 1431655765 /Colors 3 /BitsPerComponent 8) *)
-Lemma png_ctor_row_buffer_refuted_lemma :
-  exists columns spp bps p, (0 <= columns < 4294967296)%Z /\ (0 <= spp < 4294967296)%Z /\ (0 <= bps < 4294967296)%Z /\
-    c4_png_ctor false true 0 columns spp bps = Some p /\
-    c4png_bpr p = 4294967295%Z /\ c4png_alloc p = 0%Z /\ c4png_incoming p = 0%Z.
-Proof.
-  exists 1431655765%Z, 3%Z, 8%Z, (mkC4png 4294967295 0 0). repeat split; try lia; vm_compute; reflexivity.
-Qed.
-
-(* what does hold: with the protective limit switched on (any value that fits uint32_t, as the setter enforces) the
-   buffers hold a whole row plus the filter byte and a row is never empty; and the same for EVERY parameter set once the
-   range check is made on bpr + 1 (the proposed repair) *)
-Lemma png_ctor_row_buffer_partial_lemma : forall fixed decode limit columns spp bps p,
+(* for EVERY parameter set the constructor accepts, with or without a memory limit, the row buffers hold a whole row plus
+   the filter byte, a row is not empty and `incoming` is at least a row (repair of D-C04-png-row-wrap) *)
+Lemma png_ctor_row_buffer_nonempty_lemma : forall decode limit columns spp bps p,
   (0 <= columns < 4294967296)%Z -> (0 <= spp < 4294967296)%Z -> (0 <= bps < 4294967296)%Z ->
-  (fixed = true \/ (0 < limit < 4294967296)%Z) ->
-  c4_png_ctor fixed decode limit columns spp bps = Some p ->
+  c4_png_ctor decode limit columns spp bps = Some p ->
   c4png_alloc p = (c4png_bpr p + 1)%Z /\ (1 <= c4png_bpr p)%Z /\ (c4png_bpr p <= c4png_incoming p)%Z.
 Proof.
-  intros fixed decode limit columns spp bps p Hc Hs Hb Hf H. unfold c4_png_ctor in H.
+  intros decode limit columns spp bps p Hc Hs Hb H. unfold c4_png_ctor in H.
   destruct (spp <? 1)%Z; [discriminate|].
   destruct (negb _); [discriminate|].
   destruct (negb (bps * spp + 7 <? 4294967296)%Z); [discriminate|].
   set (bpr := ((columns * (bps * spp) + 7) / 8)%Z) in *.
   assert (Hnn : (0 <= bpr)%Z) by (apply Z.div_pos; nia).
   destruct (bpr =? 0)%Z eqn:E0; [discriminate|]. apply Z.eqb_neq in E0.
-  destruct (negb ((if fixed then bpr + 1 else bpr) <? 4294967296)%Z) eqn:E1; [discriminate|].
+  destruct (negb (bpr + 1 <? 4294967296)%Z) eqn:E1; [discriminate|].
   apply negb_false_iff, Z.ltb_lt in E1. cbn [orb] in H.
-  assert (Hlt : (bpr + 1 < 4294967296)%Z).
-  { destruct Hf as [Hf|Hf].
-    - subst fixed. exact E1.
-    - destruct ((0 <? limit) && (limit / 2 <? bpr))%Z eqn:E2; [discriminate|].
-      apply andb_false_iff in E2. destruct E2 as [E2|E2].
-      + apply Z.ltb_ge in E2. lia.
-      + apply Z.ltb_ge in E2. assert (limit / 2 < 2147483648)%Z by (apply Z.div_lt_upper_bound; lia). lia. }
   destruct ((0 <? limit) && (limit / 2 <? bpr))%Z; [discriminate|].
   inversion H; subst p; clear H. cbn [c4png_alloc c4png_bpr c4png_incoming].
   rewrite Z.mod_small by lia. destruct decode; repeat split; lia.
 Qed.
 
-(* ------------------------------------------------------------------ qpdf JSON import: a new stream always has data? *)
-(* REFUTED on the reactor as coded: two "stream" members in one entry, both without data - the second one finds the object
-   to be a stream already and clears this_stream_needs_data, so containerEnd reports nothing (finding C04-F-json-dup-stream) *)
-Lemma json_new_stream_has_data_refuted_lemma :
-  exists tbl og ms, c4_jentry_dataless tbl og ms = true /\
-    fst (fst (c4_import_json tbl false [C4jObj (fst og) (snd og) ms])) = C4eNone.
+(* regression, pinned on the former witnesses of D-C04-png-row-wrap (a row of exactly 2^32 - 1 bytes): refused, with and
+   without a limit, for decoding and encoding; one byte less per row is still accepted with a buffer of 2^32 - 1 bytes *)
+Lemma png_ctor_row_wrap_witnesses_refused_lemma :
+  c4_png_ctor true 0 1431655765 3 8 = None /\ c4_png_ctor false 0 1431655765 3 8 = None /\
+  c4_png_ctor true 0 4294967295 1 8 = None /\ c4_png_ctor true 0 4294967295 2 4 = None /\
+  c4_png_ctor true 4294967295 1431655765 3 8 = None /\
+  c4_png_ctor true 0 4294967294 1 8 = Some (mkC4png 4294967294 4294967295 4294967295).
+Proof. vm_compute. repeat split; reflexivity. Qed.
+
+(* ------------------------------------------------------------------ qpdf JSON import: a new stream always has data *)
+Lemma c4_jis_stream_set : forall tbl og b, c4_jis_stream (c4_jset_stream tbl og b) og = b.
 Proof.
-  exists [], (5, 0), [C4jStream true true false false false; C4jStream true true false false false].
-  vm_compute. split; reflexivity.
+  intros tbl og b. unfold c4_jis_stream, c4_jset_stream.
+  assert (Hf : existsb (c4_jog_eqb og) (filter (fun x => negb (c4_jog_eqb og x)) tbl) = false).
+  { induction tbl as [|x t IH]; [reflexivity|]. cbn. destruct (c4_jog_eqb og x) eqn:E; cbn; [exact IH | rewrite E; exact IH]. }
+  destruct b; [|exact Hf].
+  cbn. unfold c4_jog_eqb at 1. rewrite !N.eqb_refl. reflexivity.
 Qed.
 
-(* what does hold: an entry with a single member never leaves a new stream without data *)
-Lemma json_new_stream_has_data_partial_lemma : forall tbl og m, c4_jentry_dataless tbl og [m] = false.
+(* while the members of an entry are read: if the object is a stream now, although it was none when the entry began, then
+   this_stream_needs_data is set and "stream" was seen *)
+Definition c4_jneeds_inv (og : N * N) (s : c4_jst) : Prop :=
+  c4_jis_stream (c4js_tbl s) og = true -> c4js_needs s = true /\ c4js_stream s = true.
+
+Lemma c4_jmember_step_needs : forall og s m, c4_jneeds_inv og s -> c4_jneeds_inv og (c4_jmember_step og s m).
 Proof.
-  intros tbl og m. unfold c4_jentry_dataless. cbn [fold_left c4_jmember_step c4js_exn].
-  assert (Hf : existsb (c4_jog_eqb og) (filter (fun x => negb (c4_jog_eqb og x)) tbl) = false).
-  { clear. induction tbl as [|x t IH]; [reflexivity|]. cbn. destruct (c4_jog_eqb og x) eqn:E; cbn; [exact IH | rewrite E; exact IH]. }
-  unfold c4_jis_stream in *.
-  destruct (existsb (c4_jog_eqb og) tbl) eqn:Ew; [reflexivity|]. cbn [negb andb].
-  destruct m as [n g|ok|isdict dict data datafile suberr|].
-  - cbn - [existsb filter]. rewrite ?Ew, ?andb_false_r; reflexivity.
-  - unfold c4_jreplace, c4_jr_refuses, c4_qpdf_replace_throws. cbn - [existsb filter].
-    unfold c4_jset_stream. rewrite Hf. reflexivity.
-  - destruct isdict; cbn [negb].
-    + cbn - [existsb filter]. rewrite Ew. unfold c4_jreplace, c4_jr_refuses, c4_qpdf_replace_throws. cbn - [existsb filter].
-      destruct data, datafile; cbn - [existsb filter]; try (rewrite ?andb_false_r; reflexivity);
-        unfold c4_jentry_end_err; cbn - [existsb filter]; destruct dict; cbn - [existsb filter]; rewrite ?orb_true_r, ?andb_false_r; reflexivity.
-    + cbn - [existsb filter]. rewrite ?Ew, ?andb_false_r; reflexivity.
-  - cbn - [existsb filter]. rewrite ?Ew, ?andb_false_r; reflexivity.
+  intros og s m I. unfold c4_jmember_step. destruct (c4js_exn s); try exact I.
+  destruct m as [n g|ok|isdict dict data datafile suberr|]; [exact I | | | exact I].
+  - unfold c4_jreplace, c4_jr_refuses, c4_qpdf_replace_throws. cbn [c4j_indirect c4j_init andb negb orb].
+    intros H. cbn [c4js_tbl] in H. rewrite c4_jis_stream_set in H. discriminate.
+  - destruct (negb isdict).
+    + intros H. cbn [c4js_tbl] in H. destruct (I H) as [H1 _]. cbn. split; [exact H1 | reflexivity].
+    + destruct (c4_jis_stream (c4js_tbl s) og) eqn:Ew.
+      * intros _. destruct (I Ew) as [H1 _]. cbn. rewrite H1. split; reflexivity.
+      * unfold c4_jreplace, c4_jr_refuses, c4_qpdf_replace_throws. cbn [c4j_indirect c4j_stream c4j_same c4j_init andb negb orb].
+        intros _. cbn. rewrite orb_true_r. split; reflexivity.
 Qed.
+
+Lemma c4_jmembers_needs : forall og ms s, c4_jneeds_inv og s -> c4_jneeds_inv og (fold_left (c4_jmember_step og) ms s).
+Proof.
+  intros og ms. induction ms as [|m ms IH]; intros s I; [exact I|].
+  cbn [fold_left]. apply IH, c4_jmember_step_needs, I.
+Qed.
+
+(* no entry, whatever its members (value / stream / both / several of each, in any order), leaves a new stream without
+   "data" or "datafile" unreported (repair of C04-F-json-dup-stream) *)
+Lemma json_new_stream_has_data_lemma : forall tbl og ms, c4_jentry_dataless tbl og ms = false.
+Proof.
+  intros tbl og ms. unfold c4_jentry_dataless.
+  destruct (c4_jis_stream tbl og) eqn:Ew; [reflexivity|]. cbn [negb andb].
+  set (s0 := mkC4jst tbl false 0 C4eNone false false false false false false).
+  assert (I0 : c4_jneeds_inv og s0) by (unfold c4_jneeds_inv, s0; cbn [c4js_tbl]; intros H; rewrite Ew in H; discriminate).
+  pose proof (c4_jmembers_needs og ms s0 I0) as I. set (s1 := fold_left (c4_jmember_step og) ms s0) in *.
+  destruct (c4_jis_stream (c4js_tbl s1) og) eqn:E1; [|reflexivity].
+  destruct (I E1) as [Hn Hs]. cbn [andb].
+  destruct (c4js_data s1) eqn:Ed; [reflexivity|]. destruct (c4js_datafile s1) eqn:Ef; [reflexivity|]. cbn [negb andb].
+  unfold c4_jentry_end_err. rewrite Hn, Hs, Ed, Ef. cbn. rewrite !orb_true_r. reflexivity.
+Qed.
+
+(* regression, pinned on the former witness of C04-F-json-dup-stream: two "stream" members without data are reported, the
+   import fails with std::runtime_error; with the data in either member it succeeds *)
+Lemma json_dup_stream_witness_refused_lemma :
+  fst (fst (c4_import_json [] false [C4jObj 5 0 [C4jStream true true false false false; C4jStream true true false false false]])) = C4eRuntime /\
+  fst (fst (c4_import_json [] false [C4jObj 5 0 [C4jStream true true false false false; C4jStream true true true false false]])) = C4eNone /\
+  fst (fst (c4_import_json [] false [C4jObj 5 0 [C4jStream true true true false false; C4jStream true true false false false]])) = C4eNone /\
+  fst (fst (c4_import_json [(5, 0)] false [C4jObj 5 0 [C4jStream true true false false false; C4jStream true true false false false]])) = C4eNone.
+Proof. vm_compute. repeat split; reflexivity. Qed.
